@@ -32,6 +32,10 @@ type c10Scenario struct {
 	// closed (the line is lost), idles HoldIdleMS, connects again, and the remaining lines follow
 	HoldCloseAt int `json:"hold_close_at"`
 	HoldIdleMS  int `json:"hold_idle_ms"`
+	// NPings > 0: right after line PingsAfter was issued the server sends this many PINGs; the answers are
+	// outgoing lines like any other
+	PingsAfter int `json:"pings_after"`
+	NPings     int `json:"n_pings"`
 	Lines    []c10Line `json:"lines"`
 
 	createdLo, createdHi time.Time // set by the run: when the client (and with it the penalty clock) was created
@@ -71,6 +75,13 @@ func genC10(t *rapid.T, maxLines int, idx int) *c10Scenario {
 	// The two shapes below are fixed rather than drawn: with 400-byte lines (charge 5.36 s) the replayed
 	// penalty is far enough from the 10 s threshold at every decision for the 1.5 s scheduling slack
 	// not to blur it (drawn lengths made these shapes decide nothing in most batches).
+	if idx%12 == 9 {
+		// the server PINGs six times while the penalty is saturated: the six PONGs are charged and held
+		// back like every other line
+		sc.Lines = []c10Line{{Len: 400}, {Len: 400}, {Len: 1}}
+		sc.PingsAfter, sc.NPings = 1, 6
+		return sc
+	}
 	if idx%6 == 2 {
 		// build a penalty (the second line is held back, the third too), drop the connection, reconnect at
 		// once: registration and what follows are still charged against the same penalty
@@ -186,6 +197,17 @@ func runC10One(sc *c10Scenario) ([]c10Obs, *Violation) {
 		}
 		tc.C.Raw(line)
 		total++
+		if sc.NPings > 0 && k == sc.PingsAfter {
+			time.Sleep(300 * time.Millisecond)
+			for p := 0; p < sc.NPings; p++ {
+				tok := fmt.Sprintf("c10p%d", p)
+				mu.Lock()
+				enq["PONG :"+tok] = time.Now()
+				mu.Unlock()
+				conn.SendLine("PING :" + tok)
+				total++
+			}
+		}
 	}
 	if !waitWire(total) {
 		return nil, violationf("C10", "only %d of %d lines reached the wire within 5 minutes", strings.Count(conn.Written(), "\r\n"), total)
